@@ -5,7 +5,8 @@ from vlib import Case, hx
 
 HARNESS = "sim_driver"
 LEAN_MODULES = ["ViaProofs.C09"]
-REQUIRED_THEOREMS = []
+LEMMA_MODULES = ['ViaProofs.ConnLemmas']
+REQUIRED_THEOREMS = ['Via.C09_close_deferred', 'Via.C09_no_shutdown_while_writing', 'Via.C09_close_on_completion', 'Via.C09_keepalive_stays_open', 'Via.C09_keepalive_completion', 'Via.C09_keepalive_iff']
 LEVEL = "proof"
 TRUSTED_BASE = S.SIM_TRUSTED
 ASSUMPTIONS = S.SIM_ASSUMPTIONS
@@ -82,3 +83,7 @@ def search(rng, binaries, log):
         if f and not classify(c, f, il, FINDINGS_ALL):
             return (c, f, il)
     return None
+
+
+def extra_checks(tier, rng, binaries, log):
+    return S.net_bigbody_checks(tier, binaries, log, ['net_driver'] + (['net_driver_tls'] if tier == 'thorough' else []), PROP)
